@@ -28,7 +28,7 @@ CLAIMED["C15"] = ("4/C15", "The real Persistence.save runs on an in-memory file 
 CLAIMED["C16"] = ("4/C16", "The real Gateway.__aenter__/__aexit__, Persistence.start/stop/save_on_schedule and the built-in transports' connect/disconnect run on a real asyncio event loop in virtual time over an in-memory file system whose every operation is a suspension point; the exit moment (0..12 loop turns), body-raises, connect-fault (error or cancellation) and disconnect-fault bits, the transport kind, suspending or non-suspending connect, and the speed of every file handle are inputs explored exhaustively; assertions: only the body/library exception propagates (never CancelledError), transport down, file == registry at exit, no task left, (checked the moment the context ends), and >= 1 + floor(D/900) saves after D virtual seconds in a first or second session of the same gateway.")
 CLAIMED["C17"] = ("4/C17", "The real StreamTransport/TCPTransport/SerialTransport run over a real asyncio.StreamReader on a real event loop with a feeder task: every byte stream over an 8-byte alphabet up to length 3(4), every cut into 2(3) chunks, with and without EOF, is compared with the reference (lines of the stream in order, decoded; errors as TransportReadError); writes with fault bits on write/drain/close; connect fault; use before connect. The grid is enumerated by the solver (realised dimension, stated as such).")
 CLAIMED["C18"] = ("4/C18", "The real topic<->line mapping, subscription list and read queue are executed with symbolic node/child/ack/type and symbolic payload strings (';' and '/' included) for class-list prefixes: z3 decides the published topic/QoS/payload, subscription coverage under MQTT wildcard semantics, and that the echo under the in-prefix decodes (through the real MessageSchema) to the same message; the real MQTTClient runs on a real event loop against a fake broker client for all histories of <= 3 events in {message, undecodable payload, broker error}, with publish/subscribe/connect faults and connect->disconnect at every moment. Path trees exhausted; bounded model checking.")
-CLAIMED["C19"] = ("4/C19", "Two real gateways under an older and a newer protocol version are built into the same symbolic pre-state and fed the same symbolic event (received line of any command with the type ranging over the older version's table, or a send call); outcome, error attributes, writes, registry and both buffers must be equal, with exactly the stated exemptions. Implementation against implementation, one inductive step from equal states; adjacent version pairs in the quick tier, all 10 ordered pairs in the thorough tier. Path trees exhausted; bounded model checking.")
+CLAIMED["C19"] = ("4/C19", "Two real gateways under an older and a newer protocol version are built into the same symbolic pre-state and fed the same symbolic event (received line of any command with the type ranging over the older version's table, or a send call); outcome, error attributes, writes, registry and both buffers must be equal, with exactly the stated exemptions. Implementation against implementation, one inductive step from equal states; adjacent version pairs in the quick tier, 3 far pairs and wider id windows in the thorough tier. Path trees exhausted; bounded model checking.")
 PENDING = {
 }
 
